@@ -556,7 +556,18 @@ type emScenario struct {
 }
 
 func mixtureScenario(name string, mk func(rng *rand.Rand) []ScalarEstimator, data func(rng *rand.Rand) []float64) emScenario {
+	return mixtureScenarioPool(name, mk, data, 0)
+}
+
+// threads > 0: the same trajectory contract with the E-step spread over a real thread pool (what the hook
+// reports must still be the likelihood of the model entering the iteration)
+func mixtureScenarioPool(name string, mk func(rng *rand.Rand) []ScalarEstimator, data func(rng *rand.Rand) []float64, threads int) emScenario {
 	return emScenario{name, func(rng *rand.Rand, epsilon float64, maxSteps int, emit func(emev)) (float64, error) {
+		pool := ThreadPool{}
+		if threads > 0 {
+			pool = New(threads, 100)
+			defer pool.Stop()
+		}
 		x := data(rng)
 		var est *scalarEstimator.MixtureEstimator
 		hook := generic.EmHook{Value: func(m generic.BasicMixture, i int, l, e float64) {
@@ -568,7 +579,7 @@ func mixtureScenario(name string, mk func(rng *rand.Rand) []ScalarEstimator, dat
 		if err != nil {
 			return 0, err
 		}
-		if err := est.EstimateOnData(NewDenseFloat64Vector(x), nil, ThreadPool{}); err != nil {
+		if err := est.EstimateOnData(NewDenseFloat64Vector(x), nil, pool); err != nil {
 			return 0, err
 		}
 		d, _ := est.GetEstimate()
@@ -1014,6 +1025,56 @@ func structuredHmmScenario(name string, kind string) emScenario {
 	}}
 }
 
+// two estimators made from one prototype by CloneVectorEstimator are independent: using the second one does not
+// change what the first one has estimated (each owns its models, scratch model included)
+func hmmCloneScenario(name string, mk func(rng *rand.Rand) []ScalarEstimator, data func(rng *rand.Rand, n int) []float64) emScenario {
+	return emScenario{name, func(rng *rand.Rand, epsilon float64, maxSteps int, emit func(emev)) (float64, error) {
+		mkData := func() []ConstVector {
+			xs := make([]ConstVector, 1+rng.Intn(3))
+			for i := range xs {
+				xs[i] = NewDenseFloat64Vector(data(rng, 5+rng.Intn(9)))
+			}
+			return xs
+		}
+		xa, xb := mkData(), mkData()
+		a := 0.2 + 0.6*rng.Float64()
+		b := 0.2 + 0.6*rng.Float64()
+		pi := NewDenseFloat64Vector([]float64{0.6, 0.4})
+		tr := NewDenseFloat64Matrix([]float64{a, 1 - a, b, 1 - b}, 2, 2)
+		var estA, estB *vectorEstimator.HmmEstimator
+		phaseA := true
+		// the hook travels with the clones: only A's trajectory is logged
+		hook := generic.BaumWelchHook{Value: func(h generic.BasicHmm, i int, l, e float64) {
+			if !phaseA {
+				return
+			}
+			d, _ := estA.GetEstimate()
+			emit(emev{E: "hook", I: i, Nan: math.IsNaN(l), Lik: sc(l), Eps: sc(e), Recomp: sc(vectorLL(d, xa))})
+		}}
+		proto, err := vectorEstimator.NewHmmEstimator(pi, tr, nil, nil, nil, mk(rng), epsilon, maxSteps, hook)
+		if err != nil {
+			return 0, err
+		}
+		estA = proto.CloneVectorEstimator().(*vectorEstimator.HmmEstimator)
+		estB = proto.CloneVectorEstimator().(*vectorEstimator.HmmEstimator)
+		if err := estA.EstimateOnData(xa, nil, ThreadPool{}); err != nil {
+			return 0, err
+		}
+		da, _ := estA.GetEstimate()
+		before := vectorLL(da, xa)
+		phaseA = false
+		if err := estB.EstimateOnData(xb, nil, ThreadPool{}); err != nil {
+			return before, nil
+		}
+		da2, _ := estA.GetEstimate()
+		after := vectorLL(da2, xa)
+		emit(emev{E: "twin", What: "likelihood of an estimator's result before vs after its sibling clone was used", A: sc(before), B: sc(after)})
+		db, _ := estB.GetEstimate()
+		_ = db
+		return before, nil
+	}}
+}
+
 func emScenarios() []emScenario {
 	return []emScenario{
 		mixtureScenario("smix-normal", normals, func(r *rand.Rand) []float64 { return normalData(r, 10+r.Intn(30), 2) }),
@@ -1034,12 +1095,15 @@ func emScenarios() []emScenario {
 		hmmOptScenario("vhmm-categorical-fixed-transitions", categoricals, func(r *rand.Rand, n int) []float64 { return countData(r, n, 2) }, hmmOpts{fixedTr: true}),
 		hmmOptScenario("vhmm-categorical-short", categoricals, func(r *rand.Rand, n int) []float64 { return countData(r, n, 2) }, hmmOpts{short: true}),
 		hmmOptScenario("vhmm-normal-short", normals, func(r *rand.Rand, n int) []float64 { return normalData(r, n, 2) }, hmmOpts{short: true}),
+		mixtureScenarioPool("smix-normal-pool3", normals, func(r *rand.Rand) []float64 { return normalData(r, 10+r.Intn(30), 2) }, 3),
+		mixtureScenarioPool("smix-poisson-pool5", poissons, func(r *rand.Rand) []float64 { return countData(r, 10+r.Intn(30), 8) }, 5),
 		mixtureScenario("smix-negbin", negbins, func(r *rand.Rand) []float64 { return countData(r, 10+r.Intn(30), 9) }),
 		mixtureScenario("smix-wrapped-normal", wrappedNormals, func(r *rand.Rand) []float64 {
 			x := countData(r, 10+r.Intn(30), 12)
 			return x
 		}),
 		discreteLatticeScenario(),
+		hmmCloneScenario("vhmm-categorical-clones", categoricals, func(r *rand.Rand, n int) []float64 { return countData(r, n, 2) }),
 		structuredHmmScenario("vhmm-constrained", "constrained"),
 		structuredHmmScenario("vhmm-hierarchical", "hierarchical"),
 		matrixHmmScenario("mhmm-scalarid", 0),
